@@ -390,6 +390,40 @@ func c11CheckSubsets(c c11SubsetCase) engine.Result {
 	return res
 }
 
+// ---- scenario "short-buffer-first" ---------------------------------------------------------------------------
+
+type c11FirstCase struct {
+	StreamID int `json:"stream_id"`
+}
+
+// Runs before every other scenario: the FIRST buffer this process decodes for a stream id is a header cut after
+// 7 (8) bytes - legal when an adaptation field leaves so little payload -, the complete header of the same id
+// follows. Whatever the decoder keeps per stream id from the first call must not decide the second.
+func c11CheckFirst(c c11FirstCase) engine.Result {
+	var res engine.Result
+	id := byte(c.StreamID)
+	class := c11Class(id)
+	var w ref.BitWriter
+	p := ref.PES{StreamID: id, PTSDTS: 3, PTS: c11TSPairs[3][0], DTS: c11TSPairs[3][1], Payload: c11Payload, PacketLength: -1}
+	c11SetFlags6(&p, 0x04)
+	c11ApplyOpt(&p, 0)
+	_, dataAt := p.AppendTo(&w)
+	full := append([]byte{}, w.Out()...)
+	engine.Guard(&res, "NewPESHeader", func() {
+		c11NoPanic(&res, full[:7+c.StreamID%2])
+		c11NoPanic(&res, full[:8-c.StreamID%2])
+		res.Nontrivial++
+		switch class {
+		case c11Optional:
+			c11Judge(&res, full, class, id, &p, dataAt)
+		default:
+			c11Judge(&res, full, class, id, &p, 6)
+		}
+	})
+	res.Outcome(class)
+	return res
+}
+
 // ---- scenario "back-to-back" ---------------------------------------------------------------------------------
 
 type c11B2BCase struct {
@@ -783,6 +817,16 @@ func init() {
 		ID: "C11", Title: "PES header decoding matches ISO 13818-1 for every header shape", Level: "model_checking",
 		Pre: c11Pre,
 		Scenarios: []engine.ScenarioRunner{
+			&engine.Enum[c11FirstCase]{
+				Name: "short-buffer-first",
+				Rule: "runs FIRST: for every stream_id the first two buffers this process decodes are a header cut after 7 and 8 bytes (in either order), then the complete header with PTS and DTS is decoded and judged as in header-shapes (anything remembered per stream id from a short first call shows)",
+				Gen: func(r *engine.Run, emit func(c11FirstCase)) {
+					for id := 0; id < 256; id++ {
+						emit(c11FirstCase{id})
+					}
+				},
+				Check: c11CheckFirst, Batch: 8,
+			},
 			&engine.Enum[c11ShapeCase]{
 				Name: "header-shapes",
 				Rule: "case = stream_id (all 256) x low six bits of the first flag byte (scrambling, priority, alignment, copyright, original: 6 patterns, thorough 36); Check builds every combination of PTS_DTS_flags {00,10,11} x timestamp pairs (7 boundary pairs, thorough 12) x other optional fields {none, ESCR+ES_rate+trick+copy_info+CRC+extension, each field alone, 3 extension variants} x header stuffing {0,1,2,3, up to PES_header_data_length 255} x payload {0,1,5 bytes} x PES_packet_length {consistent, 0, 0xFFFF}; ids with optional header: prefix, stream id, DataAligned, HasPTS/HasDTS, PTS/DTS values, Data() vs. the builder's data offset; the 7 ids without optional header: the same bytes (plus cuts to 1,2,3,5 data bytes) must come back from offset 6; 0xBC: prefix and id only; every prefix of the header is executed for panics, and where it ends behind the timestamps their presence and values are judged; non-trivial = each distinct byte string judged",
